@@ -76,6 +76,18 @@ def gen_emit_case(rng):
         v = objgen.rand_vars(rng, ascii_only=False, bound=2 ** 64)
         v["custom"] = rng.choice([objgen.rand_custom(rng, False), {"a": [1, [2, [3, {"b": None}]]], "f": 2.5, "neg": -7, "z": -0.0, "e": {}, "l": [],
                                                                       "big": 2 ** 64 - 1, "s": 'q"uo\\te\nnl\ttab\r' + "é日本😀"}, {}])
+        if rng.random() < 0.35:
+            order = list(ron.PRECEDENCE)
+            k2 = rng.random()
+            if k2 < 0.3:
+                order = []
+            elif k2 < 0.6:
+                rng.shuffle(order)
+            else:
+                order = rng.sample(order, rng.randrange(1, len(order)))
+            schema["precedence_order"] = order
+            text = ron.zerv_to_ron(schema, v)
+            return ["version", "--source", "stdin", "--output-format", "zerv"], text
         return ["version", "--source", "stdin", "--output-format", "zerv"], ron.zerv_to_ron(schema, v)
     f = c07.gen_fields(rng, 2 ** 31)
     f["build"] = None
